@@ -82,6 +82,24 @@ CLAIMED = {
          "DESIGN.md §5 C20"),
 }
 
+# session 7: one more sentence per level text
+ADD7 = {
+ "C01": "fnfields phase (3k / 60k programs): a struct with 2-4 function-typed fields built at one site with plain functions and capturing closures in every mixture, fields read back and called, expected output computed directly; directed programs include methods with type parameters of their own.",
+ "C02": "fnfields phase as in C01 (the emitted Go must type-check); directed programs include methods with type parameters of their own.",
+ "C03": "Ill-typed kinds also cover calls with too FEW arguments (trait methods on concrete and dyn receivers, enum variants) and every builtin called with 0-4 arguments; generic functions build and take apart arrays / Vecs / Refs / tuples of a type parameter.",
+ "C05": "A tenth skeleton operation opens a curried closure `|a| |a| { .. }` (both parameters spelled alike); nested single closures are written curried half of the time.",
+ "C07": "Generic functions build and take apart arrays / Vecs / Refs / tuples of a type parameter; a directed program calls methods of a generic impl that have type parameters of their own at two type arguments per receiver instance.",
+ "C08": "fnfields phase (3k / 60k programs): closures and plain functions stored in 2-4 function-typed struct fields in every mixture and order at one construction site, read back and called in main or in helpers defined after the site; the closures capture the constructor's parameters and a shared Ref cell.",
+ "C10": "Operators are also applied to one variable on both sides (x / x with x = 0 must fail, x - x, x == x ..), directly and inside a helper function.",
+ "C16": "Legal projects also call an `extern \"go\"` function of an imported package through the package path and use a trait whose impls for another package's types live in the trait's package, statically and as `dyn`, from a third package.",
+ "C17": "dyn-impl section (a seventh of the positive cases): a second trait implemented for the trait-object type `dyn Tr` (its method calls a method of Tr on the receiver) next to an impl for one of the concrete types; seven call forms on the trait object and four on the concrete value must each run the right impl.",
+ "C19": "29 directed programs now, one of them makes trait objects from the function types () -> T, (unit) -> T, (T) -> T and from Vec / Ref / array receivers (vtable constructors and wrappers are named after the receiver type).",
+ "C20": "The fixed programs whose hover answers query_test.rs pins down are a labelled case (phase fixed): a wrong answer is a violation, a missing label makes a violation-free run inconclusive. `Pkg::` completion is also requested next to imported packages whose names end or start with Pkg.",
+}
+for _k, _v in ADD7.items():
+    _t = CLAIMED[_k]
+    CLAIMED[_k] = (_t[0], _t[1] + " " + _v, _t[2], _t[3])
+
 NOT_YET = "check not built yet (work in progress; see DESIGN.md Appendix D)"
 
 def main():
